@@ -144,8 +144,9 @@ class EventletConnection(Connection):
         log.debug("Closed socket to %s" % (self.endpoint,))
 
         if not self.is_defunct:
-            self.error_all_requests(
-                ConnectionShutdown("Connection to %s was closed" % self.endpoint))
+            shutdown_error = ConnectionShutdown("Connection to %s was closed" % self.endpoint)
+            self.error_all_cp_sessions(shutdown_error)
+            self.error_all_requests(shutdown_error)
             # closed during the handshake: whoever waits for the connection must see a failure
             if not self.connected_event.is_set():
                 self.last_error = ConnectionShutdown("Connection to %s was closed" % self.endpoint)
